@@ -371,6 +371,10 @@ private:
   const assumption_map_t *m_assumptions;
   // Used to skip the analysis until m_entry is found
   bool m_skip;
+  // Initial value at m_entry. It must be part of the invariant of
+  // m_entry each time it is recomputed, since m_entry can be
+  // re-entered if it belongs to a cycle.
+  AbstractValue m_init;
 
   inline AbstractValue make_top() const { return m_absval_fac.make_top(); }
 
@@ -446,12 +450,14 @@ private:
 public:
   wto_iterator(interleaved_iterator_t *iterator, const AbstractValue &absval_fac)
       : m_iterator(iterator), m_entry(m_iterator->get_cfg().entry()),
-        m_absval_fac(absval_fac), m_assumptions(nullptr), m_skip(true) {}
+        m_absval_fac(absval_fac), m_assumptions(nullptr), m_skip(true),
+        m_init(m_iterator->get_pre(m_entry)) {}
 
   wto_iterator(interleaved_iterator_t *iterator, basic_block_label_t entry,
                const AbstractValue &absval_fac, const assumption_map_t *assumptions)
       : m_iterator(iterator), m_entry(entry), m_absval_fac(absval_fac),
-        m_assumptions(assumptions), m_skip(true) {}
+        m_assumptions(assumptions), m_skip(true),
+        m_init(m_iterator->get_pre(m_entry)) {}
 
   virtual void visit(wto_vertex_t &vertex) override {
     basic_block_label_t node = vertex.node();
@@ -472,12 +478,16 @@ public:
 
     AbstractValue pre = std::move(make_top());
     if (node == m_entry) {
-      pre = m_iterator->get_pre(node);
+      // m_entry can have predecessors if it is nested in a cycle
+      pre = m_init;
+      for (basic_block_label_t prev : m_iterator->m_cfg.prev_nodes(node)) {
+        pre |= m_iterator->get_post(prev);
+      }
       if (m_assumptions && !m_assumptions->empty()) {
         // no necessary but it might avoid copies
         pre = strengthen(node, pre);
-        m_iterator->set_pre(node, pre);
       }
+      m_iterator->set_pre(node, pre);
     } else {
       auto prev_nodes = m_iterator->m_cfg.prev_nodes(node);
       crab::CrabStats::resume("Fixpo.join_predecessors");
@@ -539,14 +549,9 @@ public:
     AbstractValue pre = std::move(make_bottom());
     wto_nesting_t cycle_nesting = get_nesting(head);
 
-    if (entry_in_this_cycle) {
-      CRAB_VERBOSE_IF(
-          2, crab::outs() << "Skipped predecessors of "
-                          << crab::basic_block_traits<basic_block_t>::to_string(
-                                 head)
-                          << "\n");
-      pre = m_iterator->get_pre(m_entry);
-    } else {
+    {
+      // If entry_in_this_cycle then the predecessors outside the cycle
+      // were skipped and their invariants are bottom.
       crab::CrabStats::count("Fixpo.join_predecessors");
       crab::ScopedCrabStats __st__("Fixpo.join_predecessors");
       for (basic_block_label_t prev : prev_nodes) {
@@ -554,6 +559,9 @@ public:
           pre |= m_iterator->get_post(prev);
         }
       }
+    }
+    if (head == m_entry) {
+      pre |= m_init;
     }
     if (m_assumptions && !m_assumptions->empty()) {
       // no necessary but it might avoid copies
@@ -575,6 +583,9 @@ public:
       AbstractValue new_pre = std::move(make_bottom());
       for (basic_block_label_t prev : prev_nodes) {
         new_pre |= m_iterator->get_post(prev);
+      }
+      if (head == m_entry) {
+        new_pre |= m_init;
       }
       crab::CrabStats::stop("Fixpo.join_predecessors");
       crab::CrabStats::resume("Fixpo.check_fixpoint");
@@ -609,6 +620,9 @@ public:
       AbstractValue new_pre = std::move(make_bottom());
       for (basic_block_label_t prev : prev_nodes) {
         new_pre |= m_iterator->get_post(prev);
+      }
+      if (head == m_entry) {
+        new_pre |= m_init;
       }
       crab::CrabStats::stop("Fixpo.join_predecessors");
       crab::CrabStats::resume("Fixpo.check_fixpoint");
